@@ -93,7 +93,8 @@ NewEndpoint(cfg, isn, rnxt0, pwnd0, now) ==
       ackImm   |-> 0,          \* line at which an immediate ACK became due (0: none)
       stim     |-> TRUE,       \* something happened to this endpoint since its previous emission
       \* obligations of C02 / C17
-      idleWr   |-> 0, idleFin |-> 0, finAnsDue |-> 0, resetAt |-> 0, slotDue |-> 0,
+      idleWr   |-> 0, idleFin |-> 0, finAnsDue |-> 0, resetAt |-> 0, slotDue |-> 0, drainDue |-> 0,
+      probeQ   |-> FALSE,      \* a size probe is queued or outstanding (nothing more is segmented meanwhile)
       \* bookkeeping
       txCount  |-> 0, rxCount |-> 0, lastRxAt |-> now, lastWire |-> now,
       tRtx     |-> -1, tAck |-> -1, idleArmed |-> -1, ringCap |-> cfg.tx_init, txPending |-> FALSE,
@@ -101,6 +102,7 @@ NewEndpoint(cfg, isn, rnxt0, pwnd0, now) ==
       state    |-> "new",
       dying    |-> "",         \* error string once the task announced its death ("ok" for a clean end)
       deathCtx |-> "",         \* structural context of the death, for known-finding signatures
+      stalled  |-> "",         \* the connection was found stalled (C02.NoStall) earlier
       ended    |-> FALSE,
       endedAt  |-> -1,
       result   |-> "" ]
@@ -188,7 +190,7 @@ ProbePopped(e, s, expired) ==
     ELSE LET g == e.segs[s] IN
          [e EXCEPT !.segs = Put(@, s, [g EXCEPT !.popped = TRUE, !.counted = FALSE, !.lost = TRUE]),
                    !.flight = @ - (IF g.counted THEN g.len ELSE 0),
-                   !.probeOut = -1,
+                   !.probeOut = -1, !.probeQ = FALSE,
                    !.rtoMode = IF expired THEN FALSE ELSE @]
 
 (***************************************************************************)
@@ -262,6 +264,7 @@ RecvAck(e, ack, wnd, hasSack, sackSet, isState, now, line) ==
                   !.recPoint = rec1,
                   !.frDue = IF strictTrig THEN line ELSE IF ~stillOut THEN 0 ELSE @,
                   !.probeOut = IF @ >= 0 /\ (@ \in gone \/ @ \in newS) THEN -1 ELSE @,
+                  !.probeQ = IF e.probeOut >= 0 /\ (e.probeOut \in gone \/ e.probeOut \in newS) THEN FALSE ELSE @,
                   !.splitDelivered = @ \/ poppedAcked # {},
                   !.fin = IF finAck THEN [@ EXCEPT !.acked = TRUE] ELSE @]
 
@@ -368,7 +371,7 @@ DispOutOfOrder(e, s, plen, now, line) ==
     AckTrig([e EXCEPT !.held = Put(@, s, plen), !.maxPay = Max(@, plen)], 0, TRUE, now, line)
 DispDuplicate(e, now, line) == AckTrig(e, 0, TRUE, now, line)
 DispFinAccepted(e, s, now, line) ==
-    LET e1 == [e EXCEPT !.rnxt = s, !.peerFin = s,
+    LET e1 == [e EXCEPT !.rnxt = s, !.peerFin = s, !.drainDue = 0, !.idleWr = 0,
                         \* C17 "answered with the endpoint's own FIN" once its data is out
                         \* (strictest precondition: everything written was transmitted and acknowledged)
                         !.finAnsDue = IF e.fin.seq < 0 /\ e.nextOff = e.wr /\ ~Outstanding(e) THEN line ELSE 0]
